@@ -25,3 +25,6 @@ template const int &frg::min<int>(const int &, const int &);
 template const int &frg::max<int>(const int &, const int &);
 template const wit::Elem &frg::min<wit::Elem>(const wit::Elem &, const wit::Elem &);
 template const wit::Elem &frg::max<wit::Elem>(const wit::Elem &, const wit::Elem &);
+// equality of arrays of scalars (see tu/scalars.cpp): a byte-wise shortcut for "simple" element types would show here
+namespace wit { inline bool use_array_equality(const frg::array<double, 3> &a, const frg::array<double, 3> &b,
+		const frg::array<unsigned char, 4> &c, const frg::array<unsigned char, 4> &d) { return a == b && c == d; } }
